@@ -23,6 +23,14 @@ class TaskError(Exception):
     pass
 
 
+class CallableTask:
+    def __init__(self, fn):
+        self.fn = fn
+
+    async def __call__(self):
+        return await self.fn()
+
+
 async def run_case(case):
     d = Director()
     verdict = case["verdict"]
@@ -79,6 +87,8 @@ async def run_case(case):
     async def do_spawn(tg, k, segs, ending, how, oncancel=None):
         tf = st["tf"]
         fn = make_task(k, segs, ending, oncancel)
+        if k % 4 == 3:
+            fn = CallableTask(fn)      # "the coroutine function to run" given as an object with async __call__
         try:
             if how == "soon":
                 h = tf.start_task_soon(fn, f"t{k}")
@@ -222,7 +232,7 @@ def main():
             res.append(guarded_run(runner, backend=case["backend"], backend_options=backend_options(case["backend"])))
         except BaseException:  # noqa
             import traceback
-            res.append({"backend": case["backend"], "gates": case["gates"], "crash": traceback.format_exc()[-2500:]})
+            res.append({"backend": case["backend"], "gates": case["gates"], "verdict": case["verdict"], "nested": case["nested"], "crash": traceback.format_exc()[-2500:]})
     print("@@" + json.dumps({"results": res}))
 
 
